@@ -19,7 +19,7 @@ def plan(tier, seed):
     pool_n = 3
     chunks += [{'kind': 'pairs', 'n': pool_n, 'mod': 16, 'rem': i} for i in range(16)]
     return {
-        'chunks': chunks,
+        'chunks': chunks + [{'kind': 'clipipe-grammar'}],
         'rule': 'treebanks of one tree (every hierarchy over n tokens, <= u unary, x every labelling of the '
                 'constituents from {A,B}) and of two trees (every ordered pair from the pool of all labelled '
                 'shapes n <= %d), so that the same rule recurs under different parents; grammars: treebank, '
@@ -28,7 +28,8 @@ def plan(tier, seed):
                 'in which some rule is observed more than once' % pool_n,
         'bound': ', '.join('n=%d:u<=%d' % s for s in specs) + '; pairs from n <= %d' % pool_n,
         'exhaustive': True,
-        'assumptions': ['counts of a rule = sum over its vertical contexts',
+        'assumptions': ['driver differential (vt/clipipe.py): `treetools grammar` in 11 type / Markov / format / prefix combinations on a six-sentence treebank (same rule under contexts that differ at depth 1 and in fan-out only, one production with two linearizations, a five-child node with equal middle labels) must write, under the prefix given, what extraction + binarization + writer give through the library',
+                        'counts of a rule = sum over its vertical contexts',
                         'two-tree treebanks are extracted incrementally: the grammar is binarized once after the first tree, then again after the second'],
     }
 
@@ -184,6 +185,9 @@ def check_files(mtjs):
 
 
 def check_case(case):
+    if 'grammar_run' in case:
+        from .. import clipipe
+        return clipipe.replay_grammar(case)
     with quiet():
         if case.get('files'):
             return check_files(case['bank'])
@@ -191,6 +195,11 @@ def check_case(case):
 
 
 def run_chunk(chunk):
+    if chunk.get('kind') == 'clipipe-grammar':
+        from .. import clipipe
+        res = Result()
+        clipipe.run_grammar(res)
+        return res
     res = Result()
     cfgs = [None] + configs('thorough')
 
